@@ -1,5 +1,6 @@
 import ShootVerif.Drive.Loop
 import ShootVerif.Drive.Ctor
 import ShootVerif.Drive.Opt
+import ShootVerif.Drive.GetSet
 open ShootVerif.Drive
-def main : IO Unit := runDriver [("ctor", ctorCase), ("opt", optCase)]
+def main : IO Unit := runDriver [("ctor", ctorCase), ("opt", optCase), ("getset", getsetCase)]
